@@ -110,6 +110,10 @@ class PluginGen(object):
             for code in ["G4", "M204", "M205", "M73", "M900", "M0"]:
                 if rng.random() < 0.6:
                     table[code] = rng.choice(["exclude", "first", "last", "merge"])
+            if rng.random() < 0.3:
+                # entries for codes the plugin handles itself (inert)
+                for code in rng.sample(["G90", "G91", "G92", "G20", "M83", "G28", "G1"], 2):
+                    table[code] = rng.choice(["exclude", "first", "last", "merge"])
             value = [{"gcode": c, "mode": m, "description": ""} for c, m in table.items()]
             self.steps.append(("set", "extendedExcludeGcodes", value, table))
             self.store["xg"] = table
@@ -422,6 +426,24 @@ class PluginGen(object):
                 self.steps.append(("hook", "gcode", "afterPrintDone"))
                 self.event(rng.choice(END_EVENTS))
                 return
+        if known and self.exactOnly and "G92" in (self.applied["xg"] or {}) and rng.random() < 0.5:
+            # the extruder is re-based inside a region while an (inert) table entry for G92 is
+            # configured; the episode is left by a travel move, then printing continues
+            reg = rng.choice(known)
+            if reg["t"] == "rect":
+                tx, ty = (reg["x1"] + reg["x2"]) // 2, (reg["y1"] + reg["y2"]) // 2
+            else:
+                tx, ty = reg["cx"], reg["cy"]
+            self.steps.append(("g", "G90", {}))
+            self.steps.append(("g", "M82", {}))
+            self.steps.append(("g", "G92 E0", {}))
+            self.steps.append(("g", "G1 X1 Y1 E3", {}))
+            self.steps.append(("g", "G1 X%s Y%s E4" % (fmt_mm(tx), fmt_mm(ty)), {}))
+            self.steps.append(("g", "G92 E0", {}))
+            self.steps.append(("g", "G1 X1 Y1", {}))
+            self.steps.append(("g", "G1 X2 Y1 E1", {}))
+            self.event(rng.choice(END_EVENTS))
+            return
         if known and self.exactOnly and rng.random() < (0.3 if self.focus == "at" else 0.08):
             # the configured disable command, a move into a region (forwarded when the command
             # is configured), the enable command, a move out and in again
@@ -551,6 +573,10 @@ class PluginGen(object):
             for code in ["G4", "M204", "M205", "M73", "M900"]:
                 if rng.random() < 0.5:
                     table[code] = rng.choice(["exclude", "first", "last", "merge"])
+            if rng.random() < 0.5:
+                # entries for codes the plugin handles itself (they must stay inert)
+                table["G92"] = rng.choice(["exclude", "first", "last", "merge"])
+                table["G90"] = "exclude"
             self.steps.append(("set", "extendedExcludeGcodes",
                                [{"gcode": c, "mode": m, "description": ""}
                                 for c, m in table.items()], table))
